@@ -39,7 +39,7 @@ SERIAL_THREADS = True
 RULE = (
     "iterator part: 10 queries x 7 harness configurations (sharing of query / environment / document) "
     "x all interleavings of next() over 2-3 iterators (multinomial; every schedule replayed on fresh "
-    "iterators) + all single close/drop points for k=2; thread part: 17 two-thread harnesses x all "
+    "iterators) + all single close/drop points for k=2; thread part: 18 two-thread harnesses x all "
     "schedules with <=1 (quick) / <=2 (thorough, capped) preemptions at line granularity; compile-only part: "
     "1 (quick) / 4 (thorough) two-thread compile harnesses x ALL schedules with <=2 preemptions; distinct by "
     "construction; non-trivial = schedules in which at least two iterators/threads are live at once"
@@ -256,10 +256,13 @@ T_HARNESS = [
     ("value() in a shared compiled query / find", 12, 12, "iter", "find"),
     ("match with '.' inside a class / search with '.' outside, CR LF subjects", 13, 14, "find", "find"),
     ("match with '.' inside a class, shared compiled query", 13, 13, "iter", "iter"),
+    # the main thread holds a half-advanced iterator of a filter query on the shared environment
+    # while two other threads evaluate / compile on it
+    ("find / compile while an iterator of the environment is suspended half-way", 0, 2, "find_held", "compile"),
 ]
 
 
-T3 = {17: (0, "iter"), 18: (4, "find")}  # thorough only: harness index -> (query, kind) of a third thread
+T3 = {18: (0, "iter"), 19: (4, "find")}  # thorough only: harness index -> (query, kind) of a third thread
 T_HARNESS_3 = [
     ("three threads: finditer x2 shared query + find", 0, 0, "iter", "iter"),
     ("three threads: match two patterns + third pattern", 4, 10, "find", "find"),
@@ -287,7 +290,8 @@ def warm_bodies(w):
         return (str(q), [(n.location, id(n.value)) for n in q.finditer(W_DOC)])
 
     def build():
-        env = impl.jp.JSONPathEnvironment()
+        with ts.coop_locks():
+            env = impl.jp.JSONPathEnvironment()
         if warm:
             for _ in range(2):
                 env.compile(ta)
@@ -318,11 +322,17 @@ def thread_bodies(h):
     third = T3.get(h)
 
     def build():
-        env = impl.jp.JSONPathEnvironment()
+        with ts.coop_locks():  # a lock the library creates for its environment yields instead of blocking
+            env = impl.jp.JSONPathEnvironment()
         shared = {}
 
         def body(qi, kind):
             text, doc = QUERIES[qi]
+            if kind == "find_held":
+                held = iter(env.compile(text).finditer(doc))
+                next(held)
+                shared["held"] = held  # stays referenced and suspended for the whole execution
+                kind = "find"
             if kind == "iter":
                 q = shared.setdefault(("q", qi), env.compile(text))
                 return lambda: [(n.location, id(n.value)) for n in q.finditer(doc)]
@@ -341,8 +351,9 @@ def thread_bodies(h):
             raise KeyError(kind)
 
         bodies = [body(qa, ka), body(qb, kb)]
+        bodies[0].keep_alive = shared  # a suspended iterator held in `shared` lives as long as the bodies
         if third is not None:
-            bodies.append(body(11 if h == 18 else third[0], third[1]))
+            bodies.append(body(11 if h == 19 else third[0], third[1]))
         return bodies
 
     def make():
